@@ -41,6 +41,13 @@ func (s *st) start(g int, origin int) {
 		resp, err = s.w.Redeem(c, code)
 	case 1:
 		resp, err = s.w.Password(c, []string{"offline", "photos"})
+	case 2:
+		// OIDC hybrid "code token": the authorization endpoint hands out an access token of the
+		// same grant (same request id) that was NOT issued by the token endpoint
+		code, at0, aerr := s.w.AuthorizeHybrid(c, []string{"offline", "photos"})
+		zz.Assume(aerr == nil && at0 != "")
+		s.l.Add(at0, fosite.AccessToken, g, -1, false, atLife)
+		resp, err = s.w.Redeem(c, code)
 	}
 	zz.Assume(err == nil)
 	zz.Assume(world.RefreshTokenOf(resp) != "")
@@ -115,6 +122,14 @@ func (s *st) sweep(tag string) {
 	for _, t := range s.l.Toks {
 		active, _ := s.w.Introspect(t.Val, t.Use)
 		e := t.Expiry(now)
+		if !t.TE {
+			// an access token handed out by the authorization endpoint (hybrid): the statement only
+			// speaks about tokens issued by the token endpoint, so only expiry is demanded of it
+			if e == 1 {
+				zz.Assert(!active, tag+": expired token is inactive")
+			}
+			continue
+		}
 		if !t.Live || e == 1 {
 			zz.Assert(!active, tag+": dead or expired token is inactive")
 		} else if e == -1 {
@@ -155,8 +170,8 @@ func (s *st) freeOp() {
 }
 
 func run(maxPrefix, freeOps int) {
-	s := &st{w: world.New(world.Options{}), l: &world.Ledger{}, client: [2]string{"c1", "c2"}}
-	s.start(0, zz.Choice("origin", 2))
+	s := &st{w: world.NewX(world.XOptions{Hybrid: true}), l: &world.Ledger{}, client: [2]string{"c1", "c2"}}
+	s.start(0, zz.Choice("origin", 3))
 	s.start(1, 0)
 	for i, n := 0, zz.Choice("prefix", maxPrefix+1); i < n; i++ {
 		r := s.latestRefresh(0)
